@@ -91,6 +91,7 @@ type Dev struct {
 	FirstErr  int            // index in Log of the first read that returned an error, -1 if none
 	DAtErr    int            // bytes delivered up to and including that read
 	Stalls    int
+	SlowMs    int64  // simulated milliseconds that scripted Reads took so far
 	AfterErr  int    // reads served after the first error (diagnostic: retry-after-error)
 	Hook      func() // called at the start of every Read (scheduler preemption point), may be nil
 }
@@ -122,14 +123,26 @@ func (x *Dev) byteAt(i int) byte {
 	return core.FillByte(x.fill, x.seed, i)
 }
 
+// ClockJump, when set (by the workers, to the clock seam of the scratch copy), lets simulated
+// time pass: a scripted Read that "takes" J milliseconds calls it before it returns.
+var ClockJump func(ms int64)
+
 func (x *Dev) Read(p []byte) (int, error) {
 	if x.Hook != nil {
 		x.Hook()
 	}
 	k, ek := len(p), ""
+	var took int64
 	if x.step < len(x.script) {
 		s := x.script[x.step]
 		x.step++
+		took = s.J
+		if s.J != 0 {
+			x.SlowMs += s.J
+			if ClockJump != nil {
+				ClockJump(s.J)
+			}
+		}
 		if s.D < k {
 			k = s.D
 		}
@@ -140,7 +153,7 @@ func (x *Dev) Read(p []byte) (int, error) {
 	}
 	if ek == "panic-str" || ek == "panic-err" {
 		// a dying device: Read itself panics (after possibly delivering nothing in this call)
-		x.Log = append(x.Log, core.ReadRec{Asked: len(p), Gave: 0, Err: ek})
+		x.Log = append(x.Log, core.ReadRec{Asked: len(p), Gave: 0, Err: ek, J: took})
 		if x.FirstErr < 0 {
 			x.FirstErr = len(x.Log) - 1
 			x.DAtErr = x.Pos
@@ -163,7 +176,7 @@ func (x *Dev) Read(p []byte) (int, error) {
 	if x.FirstErr >= 0 {
 		x.AfterErr++
 	}
-	x.Log = append(x.Log, core.ReadRec{Asked: len(p), Gave: k, Err: ek})
+	x.Log = append(x.Log, core.ReadRec{Asked: len(p), Gave: k, Err: ek, J: took})
 	if ek != "" && x.FirstErr < 0 {
 		x.FirstErr = len(x.Log) - 1
 		x.DAtErr = x.Pos
